@@ -697,18 +697,54 @@ func (it *Interp) engineMethodExtra(iv *IfaceV, name string) Value {
 
 // harness: vTempFile(name string, content []byte) string — creates a file in the FS model
 func hTempFile(it *Interp, fn *ssa.Function, a []Value) Value {
-	name, _ := a[0].(*StrV).concrete()
+	nameV := a[0].(*StrV)
 	it.fs.tmpSeq++
 	dir := "/vtmp"
 	if it.fsFind(it.constString(dir)) == nil {
 		it.fs.nodes = append(it.fs.nodes, &FSNode{path: it.constString(dir), dir: true})
 	}
-	p := it.constString(dir + "/" + name)
+	name, concrete := nameV.concrete()
+	p := &StrV{append(append([]*Term{}, it.constString(dir + "/").b...), nameV.b...)}
+	if concrete {
+		// intermediate directories of a concrete name
+		parts := strings.Split(name, "/")
+		cur := dir
+		for _, part := range parts[:len(parts)-1] {
+			cur += "/" + part
+			if it.fsFind(it.constString(cur)) == nil {
+				it.fs.nodes = append(it.fs.nodes, &FSNode{path: it.constString(cur), dir: true})
+			}
+		}
+		it.fs.own[dir+"/"+parts[0]] = true
+		it.fs.own[dir+"/"+name] = true
+	} else {
+		// symbolic name: its concrete directory prefix (up to the last concrete '/') is created
+		last := -1
+		for i, b := range nameV.b {
+			if b.IsConst() && b.V == '/' {
+				last = i
+			}
+			if !b.IsConst() {
+				break
+			}
+		}
+		if last > 0 {
+			pre := &StrV{nameV.b[:last]}
+			if ps, ok := pre.concrete(); ok {
+				cur := dir
+				for _, part := range strings.Split(ps, "/") {
+					cur += "/" + part
+					if it.fsFind(it.constString(cur)) == nil {
+						it.fs.nodes = append(it.fs.nodes, &FSNode{path: it.constString(cur), dir: true})
+					}
+				}
+			}
+		}
+	}
 	if n := it.fsFind(p); n != nil {
 		n.removed = true
 	}
 	it.fs.nodes = append(it.fs.nodes, &FSNode{path: p, data: append([]*Term{}, it.bytesOfSlice(a[1].(*SliceV))...)})
-	it.fs.own[dir+"/"+name] = true
 	return p
 }
 
